@@ -350,6 +350,10 @@ pub struct Scenario {
     /// real files to create in the scratch directory, e.g. a `--files-from` list
     #[serde(default)]
     pub real_files: Vec<RealFile>,
+    /// (alias, target): `alias` is a second name (hard link) of the file `target`; both are listed
+    /// in `files`, share one content, and their placeholders are hard links of each other
+    #[serde(default)]
+    pub hardlinks: Vec<(String, String)>,
     /// paths (among `files`) whose placeholder in the scratch tree is a symbolic link to a
     /// regular placeholder outside the walked directories (a shared unit linked into a project)
     #[serde(default)]
